@@ -483,6 +483,42 @@ def _alternatives(db, rep):
         rep.check(ok, "R-ALT", "elaborate|recursive-%d" % (i + 1), "%s:%d" % (g.file, c["ln"]), "left stays left, right stays right; the replaced side holds that side's value",
                   "an elaboration step swaps or mixes the operands: left=%s right=%s" % (la, lb))
 
+    _diff_masks(db, rep)
+
+
+def _diff_masks(db, rep):
+    """R-DIFF-MASK: each copy emitted for one case of a difficulty switch runs on (statement's difficulties AND the case's
+    difficulties) OR the statement's aux flags"""
+    rep.rule("R-DIFF-MASK", "the difficulty mask stored on a per-case copy of a statement is computed FROM the statement's own difficulty bits, "
+                            "the case's bits and the statement's aux bits (data provenance through BitAnd / BitOr): a copy must not run on a "
+                            "difficulty that the statement's label excludes")
+    n = 0
+    for fid, case_src in ((S + "lower_assign_diff_switch", "explicit_difficulty_cases"), ("llir::lower::elaborate_diff_switches", "explicit_case_bitmasks")):
+        f = db.fn(fid)
+        rep.fn(f)
+        d = flow.Defs(f)
+        for b in f.blocks:
+            for st in b["s"]:
+                if st["r"] == "agg" and (st.get("adt") or "").endswith("TimeAndDifficulty"):
+                    o = dict(zip(st["fn"], st["ops"])).get("difficulty_mask")
+                    if o is None:
+                        continue
+                    ds = flow.deep_sources(f, d, o)
+                    calls = set(x[1] for x in ds if x[0] == "call")
+                    if not any(c.endswith("BitAnd::bitand") or c.endswith("BitOr::bitor") for c in calls):
+                        continue       # a plain copy of an existing TimeAndDifficulty
+                    n += 1
+                    need = {"difficulty_bits": any(c.endswith("DiffFlagDefs::difficulty_bits") for c in calls),
+                            "aux_bits": any(c.endswith("DiffFlagDefs::aux_bits") for c in calls),
+                            "case mask": any(c.endswith(case_src) for c in calls),
+                            "statement mask": any(x[0] == "field" and x[2] == "difficulty_mask" for x in ds),
+                            "BitAnd": any(c.endswith("BitAnd::bitand") for c in calls)}
+                    missing = sorted(k for k, v in need.items() if not v)
+                    rep.check(not missing, "R-DIFF-MASK", "%s|mask-%d" % (fid.rsplit("::", 1)[-1], n), "%s:%d" % (f.file, st["ln"]),
+                              "mask = stmt & difficulty_bits & case | stmt & aux_bits",
+                              "the mask of a per-difficulty copy is not derived from %s: the copy can run on difficulties the statement's own label excludes" % ", ".join(missing))
+    rep.floor("per-case difficulty masks", n, 2)
+
 
 def _release_loop_dominates_returns(g, undefs, errs):
     """every normal return is dominated by the header of a loop that contains an undefine_temporary call"""
